@@ -619,6 +619,18 @@ fn dump_fn<'tcx>(tcx: TyCtxt<'tcx>, ldid: LocalDefId) -> J {
         blocks.push(block_j(tcx, body, tenv, data));
     }
     o.push(("blocks".into(), J::Arr(blocks)));
+    // promoted constants (e.g. `&0.0`): tiny bodies whose _0 is the promoted value
+    let mut proms = vec![];
+    for pbody in tcx.promoted_mir(did).iter() {
+        let mut pblocks = vec![];
+        for (_bb, data) in pbody.basic_blocks.iter_enumerated() {
+            pblocks.push(block_j(tcx, pbody, tenv, data));
+        }
+        proms.push(J::Arr(pblocks));
+    }
+    if !proms.is_empty() {
+        o.push(("promoted".into(), J::Arr(proms)));
+    }
     J::Obj(o)
 }
 
@@ -706,6 +718,11 @@ fn const_j<'tcx>(tcx: TyCtxt<'tcx>, tenv: TypingEnv<'tcx>, c: &mir::ConstOperand
         ("ty".into(), J::s(ty_s(ty))),
         ("s".into(), J::s(format!("{}", c.const_))),
     ];
+    if let mir::Const::Unevaluated(uv, _) = c.const_ {
+        if let Some(p) = uv.promoted {
+            o.push(("promoted".into(), J::Num(p.as_u32() as i128)));
+        }
+    }
     match ty.kind() {
         ty::FnDef(did, args) => {
             o.push(("fn".into(), J::s(def_s(tcx, *did))));
